@@ -24,8 +24,8 @@ def resolve(w):
     FIB, CF = 'yarel::object::ObjFiber', 'yarel::object::CallFrame'
     r = {
         'frames': _field_by_type(w, FIB, lambda t: t.startswith('std::vec::Vec<') and 'CallFrame' in t, 'the frame list'),
-        'handlers': _field_by_type(w, FIB, lambda t: t.startswith('std::vec::Vec<') and 'ExcHandler' in t, 'the handler list'),
-        'stack': _field_by_type(w, FIB, lambda t: 'Stack<' in t, 'the value stack'),
+        'handlers': _field_by_type(w, FIB, lambda t: 'ExcHandler' in t, 'the handler list'),
+        'stack': _field_by_type(w, FIB, lambda t: 'Stack<' in t and 'Value' in t, 'the value stack'),
         'slot_base': _field_by_type(w, CF, lambda t: t == 'usize', "a frame's slot base"),
     }
     _cache[key] = r
